@@ -173,7 +173,7 @@ theorem initClsF_spec {re : Nat → Bool → St → St × (Frame ⊕ Exc)}
       refine ⟨h2.1.unbusy hinst2, ?_⟩
       have t : Step B L.reverse s r2.1 :=
         (ta.trans_nil hS1.weaken h.idLt).nil_trans h2.2.weaken h.idLt
-      refine ⟨⟨t.tr.nFrame_le, ?_, t.tr.newHeld⟩, t.keep⟩
+      refine ⟨⟨t.tr.nFrame_le, ?_, t.tr.newHeld, t.tr.nObj_le⟩, t.keep⟩
       intro f hf hn
       rcases t.tr.gone f hf hn with hm | hk
       · -- the frames of `L` did not exist in `s`
@@ -198,9 +198,10 @@ theorem initClsF_spec {re : Nat → Bool → St → St × (Frame ⊕ Exc)}
           · intro f hf; rw [hx.open_]; exact hD1.pend.isOpen f hf
           · intro f hf k; rw [hx.mgrs]; exact hD1.pend.notHeld f hf k
         have tf : Step (c :: B) [] s1 r1.1 := by
-          refine ⟨⟨by rw [hx.nFrame]; exact Nat.le_refl _, ?_, ?_⟩, ?_⟩
+          refine ⟨⟨by rw [hx.nFrame]; exact Nat.le_refl _, ?_, ?_, ?_⟩, ?_⟩
           · intro f hf hn; rw [hx.open_] at hn; exact absurd hf hn
           · intro k f hf; rw [hx.mgrs] at hf; exact Or.inl hf
+          · rw [hx.nObj]; simp [St.failedInit]
           · intro b _; rw [hx.mgrs]; rfl
         have h2 := exitFrames_spec hrx L.reverse (c :: B) r1.1 (some ex) hI2 hp2 hltL
         generalize exitFramesWith rx L.reverse r1.1 (some ex) = r2 at h2 ⊢
@@ -209,7 +210,7 @@ theorem initClsF_spec {re : Nat → Bool → St → St × (Frame ⊕ Exc)}
         refine ⟨h2.1.unbusy hinst2, ?_⟩
         have t : Step B L.reverse s r2.1 :=
           ((ta.trans_nil hS1.weaken h.idLt).trans_nil tf.weaken h.idLt).nil_trans h2.2.weaken h.idLt
-        refine ⟨⟨t.tr.nFrame_le, ?_, t.tr.newHeld⟩, t.keep⟩
+        refine ⟨⟨t.tr.nFrame_le, ?_, t.tr.newHeld, t.tr.nObj_le⟩, t.keep⟩
         intro f hf hn
         rcases t.tr.gone f hf hn with hm | hk
         · have := hD1.fresh f (List.mem_reverse.mp hm)
@@ -233,7 +234,7 @@ theorem initClsF_spec {re : Nat → Bool → St → St × (Frame ⊕ Exc)}
           · simp only [St.setMgr, St.created]; rw [ht]
         refine ⟨hc'.ext hxf, ?_⟩
         have t01 : Step B [] s s1 := ta.trans_nil hS1.weaken h.idLt
-        refine ⟨⟨?_, ?_, ?_⟩, ?_⟩
+        refine ⟨⟨?_, ?_, ?_, ?_⟩, ?_⟩
         · rw [hxf.nFrame]; simpa [St.created] using t01.tr.nFrame_le
         · intro f hf hn
           rw [hxf.open_] at hn
@@ -248,6 +249,10 @@ theorem initClsF_spec {re : Nat → Bool → St → St × (Frame ⊕ Exc)}
             exact Or.inr (hD1.fresh f hf)
           · simp [hk] at hf
             exact t01.tr.newHeld k f hf
+        · rw [hxf.nObj]
+          have := t01.tr.nObj_le
+          simp only [St.created]
+          omega
         · intro b hbm
           rw [hxf.mgrs]
           have hbc : b ≠ c := fun heq => hcB (heq ▸ hbm)
